@@ -23,7 +23,7 @@ TRUSTED = ["qcore.events.EventHook.safe_trigger / qcore.errors.reraise are exerc
 ASSUMPTIONS = ["flush bodies do not re-enter flush()/value() of the batch being flushed or of its items (unbounded recursion in the code)",
                "_cancel, _try_switch_active_batch and on_computed subscribers do not raise (batching.py documents the second; a raising "
                "_cancel is outside the statement's quantifier, see docs/C11.md)",
-               "default debug options (KEEP_DEPENDENCIES, DUMP_* off); one thread"]
+               "debug options: default, or ENABLE_COMPLEX_ASSERTIONS off (a third of the histories); KEEP_DEPENDENCIES and DUMP_* off; one thread"]
 EXPLANATION = ("Batch.v models BatchBase/BatchItemBase/DebugBatch with a scripted flush body and the active-batch registry; "
                "theorems in props/C11.v hold for every script list and every op history; the correspondence compares every op "
                "result, the complete event log (item/batch on_computed, body entry with the registry's value, _cancel hook, item "
@@ -206,9 +206,12 @@ def gen_ops(rng, malformed, flavour):
     return ops
 
 
-def _case(flavour, scripts, ops, meta):
+def _case(flavour, scripts, ops, meta, opts=None):
     a = [flavour, scripts, ops]
-    return {"args": a, "tree": a, "meta": meta}
+    c = {"args": a, "tree": a, "meta": meta}
+    if opts:
+        c["opts"] = opts      # debug options the run is made under; the model has none (they must not matter)
+    return c
 
 
 def gen_case(rng):
@@ -238,6 +241,9 @@ SMALL_OPS = [
 def gen_cases(rng, tier):
     n = 500 if tier == "quick" else 6000
     cs = [gen_case(rng) for _ in range(n)]
+    for i, c in enumerate(cs):      # every third history runs with the expensive assertions switched off
+        if i % 3 == 2:
+            c["opts"] = {"ENABLE_COMPLEX_ASSERTIONS": False}
     if tier != "quick":
         for sc in SMALL_SCRIPTS:
             for w in itertools.product(SMALL_OPS, repeat=3):
@@ -286,12 +292,19 @@ CORPUS = [
 ]
 
 
+# expensive assertions switched off: a body that sets some / none of its items still leaves no item pending
+CORPUS.append(_case("H", [[]], [_A(1), {"OFlush": [N(0)]}, {"OItemComputed": [N(0)]}, {"OItemError": [N(0)]}, {"OItemValue": [N(0)]},
+                                {"OBatchValue": [N(0)]}], {"corpus": True}, {"ENABLE_COMPLEX_ASSERTIONS": False}))
+CORPUS.append(_case("H", [[{"ASet": [N(0), {"VInt": [5]}]}]], [_A(1), _A(2), {"OItemValue": [N(1)]}, {"OItemValue": [N(0)]},
+                                                              {"OItemComputed": [N(1)]}], {"corpus": True}, {"ENABLE_COMPLEX_ASSERTIONS": False}))
+
+
 def model_input(c):
     return coqrun.coq_of(c["args"][1]) + " " + coqrun.coq_of(c["args"][2])
 
 
 def canon(c):
-    return json.dumps(c["args"], sort_keys=True)
+    return json.dumps([c["args"], c.get("opts")], sort_keys=True)
 
 
 def _opname(o):
@@ -354,6 +367,8 @@ def distribution(cases):
         b = "0" if L == 0 else "1-3" if L <= 3 else "4-12" if L <= 12 else "13-30"
         d["oplen"][b] = d["oplen"].get(b, 0) + 1
         d["malformed"] += 1 if c.get("meta", {}).get("malformed") else 0
+        if c.get("opts"):
+            d["complex_assertions_off"] = d.get("complex_assertions_off", 0) + 1
         d["exhaustive"] += 1 if c.get("meta", {}).get("exhaustive") else 0
         for o in ops:
             d["ops"][_opname(o)] = d["ops"].get(_opname(o), 0) + 1
@@ -608,10 +623,12 @@ def opt_(t):
 
 def shrink(c):
     flavour, scripts, ops = c["args"]
+    if c.get("opts"):
+        yield _case(flavour, scripts, ops, {"shrunk": True})
     for i in range(len(ops)):
-        yield _case(flavour, scripts, ops[:i] + ops[i + 1:], {"shrunk": True})
+        yield _case(flavour, scripts, ops[:i] + ops[i + 1:], {"shrunk": True}, c.get("opts"))
     for j, s in enumerate(scripts):
         for i in range(len(s)):
-            yield _case(flavour, scripts[:j] + [s[:i] + s[i + 1:]] + scripts[j + 1:], ops, {"shrunk": True})
+            yield _case(flavour, scripts[:j] + [s[:i] + s[i + 1:]] + scripts[j + 1:], ops, {"shrunk": True}, c.get("opts"))
     if scripts and scripts[-1] == ["ASetAll"]:
-        yield _case(flavour, scripts[:-1], ops, {"shrunk": True})
+        yield _case(flavour, scripts[:-1], ops, {"shrunk": True}, c.get("opts"))
